@@ -44,7 +44,7 @@ var faultPoints = []struct {
 	{"write-before-tempfile", []string{"rmdir"}, "TempFile"},
 	{"write-file-created", []string{"close", "readonly"}, "first Encode"},
 	{"write-before-encode", []string{"close", "readonly", "readonly-once"}, "Encode"},
-	{"write-before-sync", []string{"close"}, "Sync"},
+	{"write-before-sync", []string{"close", "einval-once"}, "Sync"},
 	{"finalise-before-seek", []string{"close", "truncate"}, "Seek"},
 	{"finalise-before-decode", []string{"close", "corrupt", "truncate"}, "Decode (Finalise)"},
 	{"pull-before-decode", []string{"close", "corrupt", "truncate"}, "Decode (Pull)"},
@@ -233,6 +233,11 @@ func checkFault(c faultCase) *vlib.Failure {
 	}
 	if res.earlyResidue {
 		return vlib.Failf("directory-back-after-cleanup", "%s: CleanUp, called right after the error while background writers were still running, returned nil; once they had finished the directory %s existed again (sabotage applied: %v; events: %s)", what, res.residue, res.sc.Applied(), res.sc.Trace(60))
+	}
+	if c.Fault.Step == "write-before-sync" && c.Fault2 == nil && len(res.sc.Applied()) > 0 && strings.Contains(res.sc.Applied()[0], ": ") && !strings.HasSuffix(res.sc.Applied()[0], ": ") && res.out.FirstError == nil {
+		// the Sync that followed the sabotage cannot have succeeded (closed file, or a pipe in its place):
+		// whatever the values look like, some call has to report it
+		return vlib.Failf("failed-sync-not-reported", "%s: the Sync after the sabotage (%v) failed for certain, yet every Push, Finalise and Pull reported success", what, res.sc.Applied())
 	}
 	if res.residue != "" {
 		return vlib.Failf("cleanup-leaves-directory-after-fault", "%s: CleanUp returned %v and the directory %s still exists (sabotage applied: %v)", what, res.cleanupErr, res.residue, res.sc.Applied())
